@@ -974,6 +974,10 @@ where
   fn poll(mut self: Pin<&mut Self>, cx: &mut Context<'_>) -> Poll<Self::Output> {
     match self.writer_command.take() {
       Some(wc) => {
+        // Store our waker before trying to send. If we did that only after a failed
+        // send, the Writer could empty the queue (and look for a waker to wake) in
+        // between, and then no-one would ever wake us although the queue has room.
+        *self.writer.cc_upload_waker.lock().unwrap() = Some(cx.waker().clone());
         match self.writer.cc_upload.try_send(wc) {
           Ok(()) => {
             self.writer.refresh_manual_liveliness();
@@ -985,7 +989,6 @@ where
           Err(TrySendError::Full(wc)) => {
             #[cfg(rustdds_verif)]
             crate::verif::hooks::yield_point(50);
-            *self.writer.cc_upload_waker.lock().unwrap() = Some(cx.waker().clone());
             #[cfg(rustdds_verif)]
             crate::verif::hooks::yield_point(51);
             if Instant::now() < self.timeout_instant {
